@@ -379,6 +379,13 @@ pub struct InstDeclaration {
 
 impl InstDeclaration {
     pub fn eval_assign(&self, context: &mut Context, assign_table: &mut AssignTable) {
+        // A connection to an input port reads the connected expression.
+        for x in &self.inputs {
+            for expr in &x.exprs {
+                expr.eval_assign(context, assign_table, AssignContext::Ff);
+            }
+        }
+
         for x in &self.outputs {
             for dst in &x.dst {
                 dst.eval_assign(context, assign_table, AssignContext::Ff);
